@@ -13,7 +13,7 @@ use serde_json::{json, Value};
 
 use super::common::set_clock;
 use crate::{
-    explore::{bfs, Outcome as BfsOutcome},
+    explore::{bfs_nd, Outcome as BfsOutcome},
     refmodel::{ModelReplica, PutOutcome},
     report::Report,
     sut::{block_on_park, handle_get_many, Sut, PEER},
@@ -760,7 +760,7 @@ fn run(ctx: &Ctx, report: &mut Report) {
     let depth = if ctx.quick() { 4 } else { 6 };
     let mut evals = 0u64;
     let mut nt = 0u64;
-    bfs(ctx, report, &reqs, depth, 1, |h, report, ordinal| {
+    bfs_nd(ctx, report, &reqs, depth, 1, if ctx.quick() { 2 } else { 3 }, |h, report, ordinal| {
         evals += 1;
         let nontrivial = {
             let opens = h.iter().filter(|r| matches!(r, Req::Open(_) | Req::OpenSync(_) | Req::OpenSub(_))).count();
